@@ -219,6 +219,7 @@ def run(ctx):
     from . import c12 as _c12, c08 as _c08
     ctx.rule('C10.OWNCOPY', lambda: _c12.rule_own_copy(ctx, 'C10.OWNCOPY'), 1)
     ctx.rule('C10.LIVEFLAG', lambda: _c08.rule_liveflag(ctx), 2)
+    ctx.rule('C10.MERGE', lambda: _c08.rule_merge(ctx) + _c08.rule_fixpoint(ctx, 'C10.FIXPOINT'), 4)
     # id-from-position with merkle=True answers from the by-height caches: their fills must be fresh too
     from . import c11
     ctx.rule('C10.CACHES', lambda: c11.rule_cachefill(ctx, 'C10.CACHES'), 4)
